@@ -6,6 +6,7 @@ from common import COQ, build_driver, coq_make, regen_all, sh
 
 DRIVERS = [
     ("gcdriver", "ExtractGc", ["gcmodel"], ["Model/GcLang.vo", "Gen/GcGuard.vo"]),
+    ("bvdriver", "ExtractBv", ["bvmodel"], ["Model/Build.vo", "Model/PyPrelude.vo", "Model/Ast.vo"]),
 ]
 
 
